@@ -172,4 +172,8 @@ theorem frameDecode_wire (fid : Nat) (p : Bytes) (hp : p.length ≤ 65529) (hf :
     simp [slice, wire, wirePrefix]
   simp only [h6, hl, if_false, htake, hcrc, ne_eq, not_true_eq_false, hs]
 
+/-- the wire frame is payload + 6 bytes -/
+theorem wire_length (fid : Nat) (p : Bytes) : (wire fid p).length = p.length + 6 := by
+  simp [wire, wirePrefix]
+
 end Nxs.Serial
